@@ -67,6 +67,37 @@ CHECKS["C10"] = dict(
    note=COMMON_NOTE + "harness/emit.py (Python ast -> Coq terms) is trusted for coverage only: a wrong emission shows up as a divergence.",
    design_ref="DESIGN.md section 6 C10, 11")
 
+FA_NOTE = COMMON_NOTE + ("Shared FunctionAnalyser model coq/model/FuncAn.v (+Context.v, Naming.v, Str.v): modelled are the IR, the scope chain, the 'potentially undefined' warnings and the outcome; "
+   "NOT modelled: texts of other diagnostics (non-strict mode assumed), the sorted / collections.defaultdict custom analysers (such functions are set aside and counted). module_exists is an oracle. "
+   "harness/fa_lib.py wraps FunctionAnalyser.analyse from outside; harness/emit.py converts ast to Coq terms.")
+CHECKS["C01"] = dict(
+   technique="Coq: refutation witnesses per finding class (vm_compute on the faithful model) + monotonicity of all visitors by tree induction + generic-visit equation; spec checker `occs`/`missed` judges rattr's IR on an exhaustive-within-bound position x kind x context catalogue; model/rattr differential correspondence",
+   text=("The full statement (every access of a body is reported) is REFUTED: C01_refuted / C01_refuted_each_class give one kernel-checked witness per finding class (slice, inner-call arguments, getattr-family arguments, "
+         "nested-def defaults, deep unnameable root, namedtuple declaration, class-instantiation annotation), each replayed on rattr and listed in KNOWN_FINDINGS.json. Proved for every node, state and outcome: no visitor ever removes "
+         "from the IR (C01_visitors_only_add, tree induction over all node classes) and a node class without dedicated visitor visits all its children (C01_generic_visit_descends_everywhere). The claim 'every access outside the "
+         "finding-class positions is reported' is, in this version, decided by the Coq specification `occs false` evaluated on rattr's own IR over the generated catalogue (every nameable kind x every statement/expression position x load/store/delete, "
+         "depth 2 quick / 3 thorough, + random bodies) and by the exact model/rattr correspondence on the same inputs - exhaustive within the bound, not a theorem beyond it."),
+   note=FA_NOTE, design_ref="DESIGN.md section 6 C01, Appendix B, section 11")
+CHECKS["C02"] = dict(
+   technique="Coq: leaf exactness theorem (a Name is reported under the kind of its context only), reader lemmas for all helpers; spec checker `phantoms` (allowed = occurrences + documented derivations) judges rattr's IR; differential correspondence",
+   text=("Proved for all inputs: visiting a variable adds exactly that variable under the kind of its expression context and changes nothing else (C02_name_reported_under_its_kind_only); all naming / dispatch helpers only read the state (C02_helpers_are_readers). "
+         "That every reported get/set/del/call of a whole body is the spelling of an expression of the body of the right kind or a documented derivation (receiver prefixes, getattr-family targets) is decided by the Coq checker `phantoms` on rattr's own IR over the "
+         "generated catalogue plus the exact model/rattr correspondence - exhaustive within the bound."),
+   note=FA_NOTE, design_ref="DESIGN.md section 6 C02, section 11")
+CHECKS["C09"] = dict(
+   technique="Coq: theorem on the record construction for argument lists of any length (induction) + namer agreement (C10); spec checker `unmirrored` per call site with constructor context; differential correspondence",
+   text=("Proved for all argument lists: the call record lists the constructed-instance stand-in first (if any) and then one spelling per positional argument in source order, the name with call brackets removed, "
+         "and construction does not touch the state (C09_record_lists_arguments_in_order); argument spellings follow the README on plain expressions (C09_argument_spelling, from C10). Which stand-in is chosen per constructor context "
+         "(assigned / returned incl. inside returned containers / discarded) is kernel-checked on examples (C09_constructor_contexts) and decided per call site by the Coq checker `unmirrored` on rattr's own call records over the generated catalogue."),
+   note=FA_NOTE, design_ref="DESIGN.md section 6 C09, section 11")
+CHECKS["C17"] = dict(
+   technique="Coq: warning-decision theorem + scope-chain laws (for all chains), refutation witness per finding class; spec = forward binding pass (spec/Binding.v) judging rattr's warnings (`spurious`, `unwarned`); differential correspondence incl. warning positions",
+   text=("Proved for all nodes/states: a warning is issued exactly when the base name is not visible in the scope chain, the expression is not a store and the base is not an '@' stand-in (C17_warning_decision); registering a name makes it visible "
+         "and never hides another, nested scopes hide nothing and restore the chain (C17_registered_name_visible, C17_registering_never_hides, C17_scopes_nest). The full no-spurious statement is REFUTED (C17_refuted; four finding classes kernel-checked in "
+         "C17_finding_classes: except names, match captures, del of attribute/item, del of a local) - listed as known findings. Whether each emitted warning is spurious w.r.t. Python's binding rules and whether unbound / deleted names are warned is decided by the Coq "
+         "forward pass of spec/Binding.v on rattr's own warnings over the generated catalogue."),
+   note=FA_NOTE, design_ref="DESIGN.md section 6 C17, section 11")
+
 NOT_YET = {}
 
 def main():
